@@ -115,7 +115,9 @@ def record_run(case):
                     time.sleep(case['consumer_delay'] / 1000.0)
             events.append(_ev('end'))
         except BaseException as e:  # noqa: BLE001
+            import traceback
             err = f'{type(e).__name__}: {e}'
+            tb = traceback.format_exc()[-3000:]
             events.append(_ev('raised'))
     finally:
         cf.ProcessPoolExecutor, cf.ThreadPoolExecutor, pmap_mod.as_completed = real_ppe, real_tpe, real_asc
@@ -125,6 +127,7 @@ def record_run(case):
            'window': 1 + case['workers'] if mode == 'window' else 2, '_case': case}
     if err:
         rec['_error'] = err
+        rec['_traceback'] = tb
     return rec
 
 
